@@ -52,3 +52,23 @@ func tool(args []string) {
 		usage()
 	}
 }
+
+func init() {
+	register("XREPO", func(c *Ctx) {
+		for _, f := range repoGrammars() {
+			fmt.Printf("%s: ", f.Path)
+			if f.Why != "" {
+				fmt.Printf("NOT READ: %s\n", f.Why)
+				continue
+			}
+			if f.Lex != nil {
+				ok, why := f.Lex.lexInDomain()
+				fmt.Printf("lex: %d defs, %d lits, in domain: %v %s; ", len(f.Lex.Defs), len(f.Lex.Lits), ok, why)
+			}
+			if f.Syn != nil {
+				fmt.Printf("syn: %d nonterminals, %d terminals, %d productions", len(f.Syn.NTs), len(f.Syn.Terms), len(f.Syn.Prods))
+			}
+			fmt.Println()
+		}
+	})
+}
